@@ -37,18 +37,18 @@ func init() { reg.Register("C10", Run) }
 
 // Case is one replayable execution.
 type Case struct {
-	Kind     string `json:"kind"`           // diff | lift | funcs | live | conc | cli | pin
-	Tpl      string `json:"tpl"`            // template under test (for funcs: the call site)
-	Ref      string `json:"ref,omitempty"`  // reference template (lifted / inlined)
-	File     string `json:"file,omitempty"` // funcs file text
-	Ctxs     []Ctx  `json:"ctxs,omitempty"`
-	RefCtxs  []Ctx  `json:"ref_ctxs,omitempty"` // contexts of the reference (lift); default Ctxs
-	Stateful bool   `json:"stateful,omitempty"` // uses a helper documented to cache (time format detection)
-	W        int    `json:"w,omitempty"`
-	Rounds   int    `json:"rounds,omitempty"`
-	Env      bool   `json:"env,omitempty"` // cli: funcs file through RARE_FUNC_FILES
-	Class    string `json:"class,omitempty"`
-	Pin      string `json:"pin,omitempty"`
+	Kind     string  `json:"kind"`           // diff | lift | funcs | live | conc | cli | pin
+	Tpl      string  `json:"tpl"`            // template under test (for funcs: the call site)
+	Ref      string  `json:"ref,omitempty"`  // reference template (lifted / inlined)
+	File     string  `json:"file,omitempty"` // funcs file text
+	Ctxs     []Ctx   `json:"ctxs,omitempty"`
+	RefCtxs  []Ctx   `json:"ref_ctxs,omitempty"` // contexts of the reference (lift); default Ctxs
+	Stateful bool    `json:"stateful,omitempty"` // uses a helper documented to cache (time format detection)
+	W        int     `json:"w,omitempty"`
+	Rounds   int     `json:"rounds,omitempty"`
+	Env      bool    `json:"env,omitempty"` // cli: funcs file through RARE_FUNC_FILES
+	Class    string  `json:"class,omitempty"`
+	Pin      string  `json:"pin,omitempty"`
 	Cases    []*Case `json:"cases,omitempty"` // live-batch
 	Canon    string  `json:"canon,omitempty"` // funcs: the same definitions, one per line, no comments / continuations
 }
